@@ -187,7 +187,7 @@ static void emit(const uint8_t *sched, int len, bool stuck)
     printf("\"}\n");
     for (int i = 0; i < nev; i++) {
         if (evs[i].inv == 'H') {
-            printf("{\"e\":\"Hang\",\"t\":%d,\"where\":\"%s\"}\n", evs[i].t, evs[i].v ? "epilogue" : "threads");
+            printf("{\"e\":\"Hang\",\"t\":%d,\"where\":\"%s\"}\n", evs[i].t, evs[i].v == 2 ? "crash" : evs[i].v ? "epilogue" : "threads");
             continue;
         }
         const char *op = evs[i].op == 'P' ? "push" : evs[i].op == 'p' ? "pop" :
@@ -202,11 +202,24 @@ static long epi_yields;
 static void epi_yield(void) { if (++epi_yields > 20000) longjmp(epi_jmp, 1); }
 static struct vs_explore *cur_e;
 
+static bool crashed;
+static bool finish(void *ctx, const uint8_t *sched, int len, bool stuck);
+static void crash_dump(int sig)
+{
+    int len;
+    const uint8_t *s = vs_cur_sched(&len);
+    crashed = true;
+    finish(NULL, s, len, false);
+    fprintf(stderr, "{\"crash_signal\":%d,\"runs\":%ld,\"unique\":%ld,\"complete\":false}\n", sig, nruns, nunique);
+}
+
 static bool finish(void *ctx, const uint8_t *sched, int len, bool stuck)
 {
     nruns++;
     if (stuck) nstuck++;
-    if (cur_e && cur_e->overrun)
+    if (crashed)
+        log_ev('H', 0, 'H', 2);          /* the code under test crashed (assert / signal) */
+    else if (cur_e && cur_e->overrun)
         log_ev('H', 0, 'H', 0);          /* livelock in the concurrent part */
     else {
         epi_yields = 0;
@@ -235,6 +248,7 @@ int main(int argc, char **argv)
         prog[nprog++] = tok;
     seen = calloc(1ULL << HBITS, sizeof(uint64_t));
     vs_install_hooks();
+    vs_install_crash_handler(crash_dump);
     struct vs_explore e = { .setup = setup, .finish = finish, .ctx = NULL };
     cur_e = &e;
     const char *mode = argv[4];
